@@ -13,13 +13,15 @@ var VerifGo = func(name string, key any, f func()) { go f() }
 def overlay(c):
     ov = c.rewrite_clock(["internal/profiledb/profiledb.go"])
     def repl(m):
-        name, extra, key = m.group(1), m.group(2), m.group(3)
-        if extra:  # arguments of a go statement are evaluated at the statement: keep that
-            return '{ verifArg := %s; VerifGo("%s", %s, func() { db.%s(ctx, verifArg, %s) }) }' % (
-                extra, name, key, name, key)
-        return 'VerifGo("%s", %s, func() { db.%s(ctx, %s) })' % (name, key, name, key)
+        # arguments of a go statement are evaluated at the statement: keep that.  The key is handed to the harness as
+        # the list of all arguments (it picks the key by type, so the order / number of parameters may change).
+        name = m.group(1)
+        args = [a.strip() for a in m.group(2).split(",") if a.strip()]
+        tmps = ["verifArg%d" % n for n in range(len(args))]
+        return '{ %s := %s; VerifGo("%s", []any{%s}, func() { db.%s(ctx, %s) }) }' % (
+            ", ".join(tmps), ", ".join(args), name, ", ".join(tmps), name, ", ".join(tmps))
     return c.rewrite_sub("internal/profiledb/profiledb.go",
-                         [(r"\bgo db\.(remove\w+)\(ctx, (?:([\w.]+), )?(\w+)\)", repl, 4)],
+                         [(r"\bgo db\.(remove\w+)\(ctx((?:, [\w.]+)+)\)", repl, 4)],
                          overlay=ov, decl=GO_DECL)
 
 
